@@ -79,170 +79,125 @@ def copy18 (buf : Bytes) (op m : Nat) : Except Err Bytes := do
   let b ← memcpyB b (op+8) (m+8) 8
   memcpyB b (op+16) (m+16) 2
 
+/-- distance between `op+8` and the adjusted `match` after the first 8 bytes of a match with `offset < 8`
+    (`offset + 8 - inc32table[offset] + dec64table[offset]`) -/
+def smallDist (offset : Nat) : Nat := ((offset : Int) + 8 - inc32table.getD offset 0 + dec64table.getD offset 0).toNat
+
 /-- first 8 bytes of a match with `offset < 8` (`LZ4_memcpy_using_offset_base` and the safe loop):
-    returns the buffer and the adjusted match index (as the C code leaves `match`) -/
-def smallOffsetHead (buf : Bytes) (op : Nat) (m : Nat) (offset : Nat) : Except Err (Bytes × Int) := do
+    `write32(op,0)`, four single-byte copies, `memcpy(op+4, match+inc32table[offset], 4)` -/
+def smallOffsetHead (buf : Bytes) (op : Nat) (m : Nat) (offset : Nat) : Except Err Bytes := do
   let b ← zero4 buf op
   let b ← fwd b op m 4
-  let inc := (inc32table.getD offset 0).toNat
-  let b ← memcpyB b (op+4) (m + inc) 4
-  pure (b, (m : Int) + inc - dec64table.getD offset 0)
+  memcpyB b (op+4) (m + (inc32table.getD offset 0).toNat) 4
 
-/-- match starting in the external dictionary (both loops share this code) -/
-def extDictMatch (env : Env) (st : St) (ip : Nat) (m : Int) (length : Nat) : Except Err Next := do
+/-- match starting in the external dictionary (both loops share this code); `back = lowPrefix - match > 0` -/
+def extDictMatch (env : Env) (st : St) (ip back length : Nat) : Except Err St :=
   let oend := st.buf.size
-  let length ←
-    if st.op + length + LASTLITERALS > oend then
-      (if env.partialD then pure (min length (oend - st.op)) else Except.error (Err.bad ip))
-    else pure length
-  let back := (env.low - m).toNat            -- lowPrefix - match  (> 0 here)
-  if length ≤ back then
+  if st.op + length + LASTLITERALS > oend ∧ ¬ env.partialD then .error (.bad ip) else
+  let length := if st.op + length + LASTLITERALS > oend then min length (oend - st.op) else length
+  if back > env.ext.size then .error (.fault .extRead) else
+  if length ≤ back then do
     -- LZ4_memmove(op, dictEnd - (lowPrefix-match), length)
-    if back ≤ env.ext.size then do
-      let b ← copyIn st.buf st.op env.ext (env.ext.size - back) .extRead length
-      pure (.fast ⟨ip, st.op + length, b⟩)
-    else .error (.fault .extRead)
-  else
-    let copySize := back
-    let restSize := length - copySize
-    if back ≤ env.ext.size then do
-      let b ← copyIn st.buf st.op env.ext (env.ext.size - back) .extRead copySize
-      let op := st.op + copySize
-      let lowN := env.low.toNat
-      if env.low < 0 then .error (.fault .bufRead) else
-      -- overlap copy or plain memcpy from lowPrefix: both are a forward copy (memcpy case: restSize ≤ op - lowPrefix)
-      let b ← (if restSize > op - lowN then fwd b op lowN restSize else memcpyB b op lowN restSize)
-      pure (.fast ⟨ip, op + restSize, b⟩)
-    else .error (.fault .extRead)
+    let b ← copyIn st.buf st.op env.ext (env.ext.size - back) .extRead length
+    pure ⟨ip, st.op + length, b⟩
+  else do
+    let b ← copyIn st.buf st.op env.ext (env.ext.size - back) .extRead back
+    if env.low < 0 then .error (.fault .bufRead) else do
+    -- overlap copy (byte loop) or plain memcpy from lowPrefix
+    let b ← (if length - back > st.op + back - env.low.toNat then fwd b (st.op + back) env.low.toNat (length - back)
+             else memcpyB b (st.op + back) env.low.toNat (length - back))
+    pure ⟨ip, st.op + length, b⟩
+
+/-- in-block match copy of the safe loop, full-block rules: first 8 bytes, then the careful or the wild tail -/
+def safeMatchCopy (buf : Bytes) (ip op mN offset length : Nat) : Except Err Bytes := do
+  let oend := buf.size
+  let cpy := op + length
+  let b ← (if offset < 8 then smallOffsetHead buf op mN offset else memcpyB buf op mN 8)
+  let m2 := if offset < 8 then op + 8 - smallDist offset else mN + 8
+  if offset < 8 ∧ op + 8 < smallDist offset then .error (.fault .bufRead) else
+  if cpy + MATCH_SAFEGUARD_DISTANCE > oend then
+    if cpy + LASTLITERALS > oend then .error (.bad ip) else
+    if op + 8 < oend - (WILDCOPYLENGTH - 1) then do
+      let b2 ← wildCopy8B b (op + 8) m2 (oend - (WILDCOPYLENGTH - 1))
+      fwd b2 (oend - (WILDCOPYLENGTH - 1)) (m2 + (oend - (WILDCOPYLENGTH - 1) - (op + 8))) (cpy - (oend - (WILDCOPYLENGTH - 1)))
+    else fwd b (op + 8) m2 (cpy - (op + 8))
+  else do
+    let b2 ← memcpyB b (op + 8) m2 8
+    if length > 16 then wildCopy8B b2 (op + 16) (m2 + 8) cpy else pure b2
 
 /-- label `safe_match_copy` : `length` final (incl. MINMATCH), `offset` read, `st.op` after the literals -/
 def safeMatch (env : Env) (st : St) (ip offset length : Nat) : Except Err Next :=
   let oend := st.buf.size
   let m : Int := (st.op : Int) - offset
-  let checkOffset := env.dictSize < 65536
-  if checkOffset ∧ m + env.dictSize < env.low then .error (.bad ip) else
-  if env.dict = .usingExtDict ∧ m < env.low then
-    match extDictMatch env st ip m length with
-    | .ok (.fast s) => .ok (.safe s)
-    | .ok n => .ok n
-    | .error e => .error e
+  if env.dictSize < 65536 ∧ m + env.dictSize < env.low then .error (.bad ip) else
+  if env.dict = .usingExtDict ∧ m < env.low then do
+    let s ← extDictMatch env st ip (env.low - m).toNat length
+    pure (.safe s)
   else
   if m < 0 then .error (.fault .bufRead) else
-  let mN := m.toNat
-  let cpy := st.op + length
-  if env.partialD ∧ cpy + MATCH_SAFEGUARD_DISTANCE > oend then
+  if env.partialD ∧ st.op + length + MATCH_SAFEGUARD_DISTANCE > oend then do
     -- partial decoding: may end anywhere within the block
     let mlen := min length (oend - st.op)
-    match (if mN + mlen > st.op then fwd st.buf st.op mN mlen else memcpyB st.buf st.op mN mlen) with
-    | .error e => .error e
-    | .ok b =>
-      let s : St := ⟨ip, st.op + mlen, b⟩
-      if s.op = oend then .ok (.done s) else .ok (.safe s)
-  else
-  -- first 8 bytes
-  match (if offset < 8 then smallOffsetHead st.buf st.op mN offset
-         else (memcpyB st.buf st.op mN 8).map (fun b => (b, (mN : Int) + 8))) with
-  | .error e => .error e
-  | .ok (b, m2) =>
-    if m2 < 0 then .error (.fault .bufRead) else
-    let m2N := m2.toNat
-    let op8 := st.op + 8
-    if cpy + MATCH_SAFEGUARD_DISTANCE > oend then
-      let oCopyLimit := oend - (WILDCOPYLENGTH - 1)
-      if cpy + LASTLITERALS > oend then .error (.bad ip) else
-      if op8 < oCopyLimit then
-        match wildCopy8B b op8 m2N oCopyLimit with
-        | .error e => .error e
-        | .ok b2 =>
-          match fwd b2 oCopyLimit (m2N + (oCopyLimit - op8)) (cpy - oCopyLimit) with
-          | .error e => .error e
-          | .ok b3 => .ok (.safe ⟨ip, cpy, b3⟩)
-      else
-        match fwd b op8 m2N (cpy - op8) with
-        | .error e => .error e
-        | .ok b3 => .ok (.safe ⟨ip, cpy, b3⟩)
-    else
-      match memcpyB b op8 m2N 8 with
-      | .error e => .error e
-      | .ok b2 =>
-        if length > 16 then
-          match wildCopy8B b2 (op8 + 8) (m2N + 8) cpy with
-          | .error e => .error e
-          | .ok b3 => .ok (.safe ⟨ip, cpy, b3⟩)
-        else .ok (.safe ⟨ip, cpy, b2⟩)
+    let b ← (if m.toNat + mlen > st.op then fwd st.buf st.op m.toNat mlen else memcpyB st.buf st.op m.toNat mlen)
+    if st.op + mlen = oend then pure (.done ⟨ip, st.op + mlen, b⟩) else pure (.safe ⟨ip, st.op + mlen, b⟩)
+  else do
+    let b ← safeMatchCopy st.buf ip st.op m.toNat offset length
+    pure (.safe ⟨ip, st.op + length, b⟩)
 
 /-- label `_copy_match` : offset already read, `ip` after the offset, match length still to decode -/
-def copyMatchLbl (env : Env) (st : St) (ip offset token : Nat) : Except Err Next :=
-  match matchLen env.src ip token with
-  | .error e => .error e
-  | .ok (length, ip') => safeMatch env st ip' offset length
+def copyMatchLbl (env : Env) (st : St) (ip offset token : Nat) : Except Err Next := do
+  let r ← matchLen env.src ip token
+  safeMatch env st r.2 offset r.1
+
+/-- the (length, end) pair of the last-literals branch of `safe_literal_copy` -/
+def lastLitLen (env : Env) (st : St) (ip length : Nat) : Except Err Nat :=
+  let oend := st.buf.size
+  let iend := env.src.size
+  if env.partialD then
+    let length1 := if ip + length > iend then iend - ip else length
+    if st.op + length1 > oend then .ok (oend - st.op) else .ok length1
+  else if ip + length ≠ iend ∨ st.op + length > oend then .error (.bad ip) else .ok length
 
 /-- label `safe_literal_copy` : `length` = literal length, `ip` at the first literal -/
 def safeLit (env : Env) (st : St) (ip token length : Nat) : Except Err Next :=
   let oend := st.buf.size
   let iend := env.src.size
-  let cpy := st.op + length
-  if cpy + MFLIMIT > oend ∨ ip + length + (2 + 1 + LASTLITERALS) > iend then
+  if st.op + length + MFLIMIT > oend ∨ ip + length + (2 + 1 + LASTLITERALS) > iend then do
     -- last sequence, or not enough room for the fast literal copy
-    let lenCpy : Except Err (Nat × Nat) :=
-      if env.partialD then
-        let length1 := if ip + length > iend then iend - ip else length
-        let cpy1 := st.op + length1
-        if cpy1 > oend then .ok (oend - st.op, oend) else .ok (length1, cpy1)
-      else if ip + length ≠ iend ∨ cpy > oend then .error (.bad ip) else .ok (length, cpy)
-    match lenCpy with
-    | .error e => .error e
-    | .ok (length2, cpy2) =>
-      match copyIn st.buf st.op env.src ip .srcRead length2 with     -- LZ4_memmove(op, ip, length)
-      | .error e => .error e
-      | .ok b =>
-        let ip2 := ip + length2
-        let s : St := ⟨ip2, st.op + length2, b⟩
-        if ¬ env.partialD ∨ cpy2 = oend ∨ ip2 + 2 ≥ iend then .ok (.done s) else
-        -- partial decoding continues with the match of this sequence
-        match rd16 env.src ip2 with
-        | .error e => .error e
-        | .ok offset => copyMatchLbl env s (ip2 + 2) offset token
-  else
-    match copyIn st.buf st.op env.src ip .srcRead (wild8len st.op cpy) with   -- LZ4_wildCopy8(op, ip, cpy)
-    | .error e => .error e
-    | .ok b =>
-      let ip2 := ip + length
-      match rd16 env.src ip2 with
-      | .error e => .error e
-      | .ok offset => copyMatchLbl env ⟨ip2, cpy, b⟩ (ip2 + 2) offset token
+    let length2 ← lastLitLen env st ip length
+    let b ← copyIn st.buf st.op env.src ip .srcRead length2           -- LZ4_memmove(op, ip, length)
+    if ¬ env.partialD ∨ st.op + length2 = oend ∨ ip + length2 + 2 ≥ iend then pure (.done ⟨ip + length2, st.op + length2, b⟩) else do
+    -- partial decoding continues with the match of this sequence
+    let offset ← rd16 env.src (ip + length2)
+    copyMatchLbl env ⟨ip + length2, st.op + length2, b⟩ (ip + length2 + 2) offset token
+  else do
+    let b ← copyIn st.buf st.op env.src ip .srcRead (wild8len st.op (st.op + length))   -- LZ4_wildCopy8(op, ip, cpy)
+    let offset ← rd16 env.src (ip + length)
+    copyMatchLbl env ⟨ip + length, st.op + length, b⟩ (ip + length + 2) offset token
+
+/-- the two-stage shortcut of the safe loop (token with literal length < 15, enough room on both sides) -/
+def shortcut (env : Env) (st : St) (token : Nat) : Except Err Next := do
+  let ip := st.ip + 1
+  let b ← copyIn st.buf st.op env.src ip .srcRead 16
+  let op := st.op + token / 16
+  let ip2 := ip + token / 16
+  let offset ← rd16 env.src ip2
+  let m : Int := (op : Int) - offset
+  if token % 16 ≠ ML_MASK ∧ offset ≥ 8 ∧ (env.dict = .withPrefix64k ∨ m ≥ env.low) then
+    if m < 0 then .error (.fault .bufRead) else do
+    let b2 ← copy18 b op m.toNat
+    pure (.safe ⟨ip2 + 2, op + (token % 16) + MINMATCH, b2⟩)
+  else copyMatchLbl env ⟨ip2, op, b⟩ (ip2 + 2) offset token
 
 /-- one iteration of the safe loop, from the token -/
-def safeIter (env : Env) (st : St) : Except Err Next :=
+def safeIter (env : Env) (st : St) : Except Err Next := do
   let oend := st.buf.size
   let iend := env.src.size
-  match rd8 env.src st.ip with
-  | .error e => .error e
-  | .ok token =>
-    let ip := st.ip + 1
-    let length := token / 16
-    if length ≠ RUN_MASK ∧ ip + shortInMargin < iend ∧ st.op + shortOutMargin ≤ oend then
-      -- two-stage shortcut
-      match copyIn st.buf st.op env.src ip .srcRead 16 with
-      | .error e => .error e
-      | .ok b =>
-        let op := st.op + length
-        let ip2 := ip + length
-        match rd16 env.src ip2 with
-        | .error e => .error e
-        | .ok offset =>
-          let ip3 := ip2 + 2
-          let m : Int := (op : Int) - offset
-          if token % 16 ≠ ML_MASK ∧ offset ≥ 8 ∧ (env.dict = .withPrefix64k ∨ m ≥ env.low) then
-            if m < 0 then .error (.fault .bufRead) else
-            match copy18 b op m.toNat with
-            | .error e => .error e
-            | .ok b2 => .ok (.safe ⟨ip3, op + (token % 16) + MINMATCH, b2⟩)
-          else copyMatchLbl env ⟨ip2, op, b⟩ ip3 offset token
-    else
-      match litLen env.src ip token with
-      | .error e => .error e
-      | .ok (length, ip2) => safeLit env ⟨st.ip, st.op, st.buf⟩ ip2 token length
+  let token ← rd8 env.src st.ip
+  if token / 16 ≠ RUN_MASK ∧ st.ip + 1 + shortInMargin < iend ∧ st.op + shortOutMargin ≤ oend then shortcut env st token
+  else do
+    let r ← litLen env.src (st.ip + 1) token
+    safeLit env st r.2 token r.1
 
 /-- in-block match copy of the fast loop (`cpy = op+length`, at least 64 bytes of room) -/
 def fastMatchCopy (buf : Bytes) (op mN offset length : Nat) : Except Err Bytes :=
@@ -251,65 +206,50 @@ def fastMatchCopy (buf : Bytes) (op mN offset length : Nat) : Except Err Bytes :
     -- LZ4_memcpy_using_offset
     if offset = 1 ∨ offset = 2 ∨ offset = 4 then fwd buf op mN (wild8len op cpy)       -- 8-byte pattern, repeated
     else if offset < 8 then
-      match smallOffsetHead buf op mN offset with
-      | .error e => .error e
-      | .ok (b, m2) => if m2 < 0 then .error (.fault .bufRead) else wildCopy8B b (op+8) m2.toNat cpy
-    else
-      match memcpyB buf op mN 8 with
-      | .error e => .error e
-      | .ok b => wildCopy8B b (op+8) (mN+8) cpy
+      if op + 8 < smallDist offset then .error (.fault .bufRead) else do
+      let b ← smallOffsetHead buf op mN offset
+      wildCopy8B b (op+8) (op + 8 - smallDist offset) cpy
+    else do
+      let b ← memcpyB buf op mN 8
+      wildCopy8B b (op+8) (mN+8) cpy
   else wildCopy32B buf op mN cpy
 
+/-- the match part of a fast-loop iteration: `s` = state after the literals (`s.ip` at the offset) -/
+def fastMatch (env : Env) (s : St) (token : Nat) : Except Err Next := do
+  let oend := s.buf.size
+  let offset ← rd16 env.src s.ip
+  let m : Int := (s.op : Int) - offset
+  let r ← matchLen env.src (s.ip + 2) token
+  if s.op + r.1 + FASTLOOP_SAFE_DISTANCE ≥ oend then safeMatch env s r.2 offset r.1 else
+  if token % 16 ≠ ML_MASK ∧ (env.dict = .withPrefix64k ∨ m ≥ env.low) ∧ offset ≥ 8 then
+    if m < 0 then .error (.fault .bufRead) else do
+    let b2 ← copy18 s.buf s.op m.toNat
+    pure (.fast ⟨r.2, s.op + r.1, b2⟩)
+  else
+  if env.dictSize < 65536 ∧ m + env.dictSize < env.low then .error (.bad r.2) else
+  if env.dict = .usingExtDict ∧ m < env.low then do
+    let s2 ← extDictMatch env s r.2 (env.low - m).toNat r.1
+    pure (.fast s2)
+  else
+  if m < 0 then .error (.fault .bufRead) else do
+  let b2 ← fastMatchCopy s.buf s.op m.toNat offset r.1
+  pure (.fast ⟨r.2, s.op + r.1, b2⟩)
+
 /-- one iteration of the fast loop -/
-def fastIter (env : Env) (st : St) : Except Err Next :=
+def fastIter (env : Env) (st : St) : Except Err Next := do
   let oend := st.buf.size
   let iend := env.src.size
-  match rd8 env.src st.ip with
-  | .error e => .error e
-  | .ok token =>
-    let ip := st.ip + 1
-    -- literals: either copied here, or hand-over to `safe_literal_copy`
-    let lit : Except Err (Option (Nat × Nat × Bytes) × Nat × Nat) :=      -- (some (ip, op, buf) | none = go safe, length, ip)
-      if token / 16 = RUN_MASK then
-        match litLen env.src ip token with
-        | .error e => .error e
-        | .ok (length, ip2) =>
-          if st.op + length + fastLitMargin > oend ∨ ip2 + length + fastLitMargin > iend then .ok (none, length, ip2) else
-          match copyIn st.buf st.op env.src ip2 .srcRead (wild32len st.op (st.op + length)) with
-          | .error e => .error e
-          | .ok b => .ok (some (ip2 + length, st.op + length, b), length, ip2)
-      else if ip + fastShortLitIn ≤ iend then
-        match copyIn st.buf st.op env.src ip .srcRead 16 with
-        | .error e => .error e
-        | .ok b => .ok (some (ip + token / 16, st.op + token / 16, b), token / 16, ip)
-      else .ok (none, token / 16, ip)
-    match lit with
-    | .error e => .error e
-    | .ok (none, length, ip2) => safeLit env st ip2 token length
-    | .ok (some (ip3, op, b), _, _) =>
-      match rd16 env.src ip3 with
-      | .error e => .error e
-      | .ok offset =>
-        let ip4 := ip3 + 2
-        let m : Int := (op : Int) - offset
-        let s : St := ⟨ip3, op, b⟩
-        match matchLen env.src ip4 token with
-        | .error e => .error e
-        | .ok (length, ip5) =>
-          if op + length + FASTLOOP_SAFE_DISTANCE ≥ oend then safeMatch env s ip5 offset length else
-          if token % 16 ≠ ML_MASK ∧ (env.dict = .withPrefix64k ∨ m ≥ env.low) ∧ offset ≥ 8 then
-            if m < 0 then .error (.fault .bufRead) else
-            match copy18 b op m.toNat with
-            | .error e => .error e
-            | .ok b2 => .ok (.fast ⟨ip5, op + length, b2⟩)
-          else
-          let checkOffset := env.dictSize < 65536
-          if checkOffset ∧ m + env.dictSize < env.low then .error (.bad ip5) else
-          if env.dict = .usingExtDict ∧ m < env.low then extDictMatch env s ip5 m length else
-          if m < 0 then .error (.fault .bufRead) else
-          match fastMatchCopy b op m.toNat offset length with
-          | .error e => .error e
-          | .ok b2 => .ok (.fast ⟨ip5, op + length, b2⟩)
+  let token ← rd8 env.src st.ip
+  let ip := st.ip + 1
+  if token / 16 = RUN_MASK then do
+    let r ← litLen env.src ip token
+    if st.op + r.1 + fastLitMargin > oend ∨ r.2 + r.1 + fastLitMargin > iend then safeLit env st r.2 token r.1 else do
+    let b ← copyIn st.buf st.op env.src r.2 .srcRead (wild32len st.op (st.op + r.1))
+    fastMatch env ⟨r.2 + r.1, st.op + r.1, b⟩ token
+  else if ip + fastShortLitIn ≤ iend then do
+    let b ← copyIn st.buf st.op env.src ip .srcRead 16
+    fastMatch env ⟨ip + token / 16, st.op + token / 16, b⟩ token
+  else safeLit env st ip token (token / 16)
 
 /-- the two `while (1)` loops -/
 def loop (env : Env) : Nat → Next → Except Err St
